@@ -9,7 +9,7 @@ from sa import fl
 from sa.core import Ctx
 from sa.sm import Func, call_kw, const_str, dotted, find_calls, norm, walk_no_nested
 
-from . import common
+from . import common, util
 
 EXEMPT = {"version": "eager callback, prints and exits", "license": "eager callback, prints and exits"}
 # callee parameter <- differently named command option
@@ -80,6 +80,111 @@ def check_call_forwarding(ctx: Ctx, rule: str, caller: Func, call: ast.Call, cal
         )
 
 
+GENERATORS = ("CodeGenerator", "CCodeGenerator", "PythonCodeGenerator", "JaxCodeGenerator")
+
+
+def _mentions_param(v, p: str) -> bool:
+    from sa import av as _av
+
+    return any(x[1] == p or x[1].startswith(p + ".") or x[1].startswith(p + "[") for x in _av.find_all(v, "sym"))
+
+
+def check_get_code(ctx: Ctx, rule: str, short: str):
+    """get_code, read from what it computes (so that the generator may be selected through a table or a helper and the
+    snippets collected by a helper): every parameter is consumed; the generator is constructed with remove_unused
+    (and shape); each backend selects its generator and an unknown one is rejected; add_schemes receives the scheme
+    options; the formatter selected by `format` is applied to the result."""
+    from sa import av as _av
+
+    sm = ctx.sm
+    gc = sm.func(short, "get_code")
+    A = util.AV(ctx)
+    is_py = short.endswith("gotran2py.py")
+    specs: list[tuple[str | None, dict]] = [(None, {})]
+    members: list[str] = []
+    if is_py and "backend" in gc.params:
+        members = list(common.enum_values(ctx, "cli/gotran2py.py", "Backend"))
+        vals = common.enum_values(ctx, "cli/gotran2py.py", "Backend")
+        specs = [(m, {"backend": ("enum", "Backend", m, vals[m] if isinstance(vals, dict) else m)}) for m in members]
+        specs.append(("<other>", {"backend": ("enum", "Backend", "<other>", "<other>")}))
+    values = {}
+    for name, args in specs:
+        try:
+            values[name] = A.returned(gc, args)[0]
+        except Exception as e:  # not understood, never a verdict
+            values[name] = _av.unk(f"evaluation failed: {e}")
+    normal = {k: v for k, v in values.items() if k != "<other>"}
+    if any(_av.has_unk(v) for v in normal.values()):
+        why = next((_av.find_all(v, "unk")[0][1] for v in normal.values() if _av.has_unk(v)), "?")
+        ctx.undecided(rule, gc.key("value"), f"what {short}::get_code computes is not understood ({why})", gc.where())
+        return
+    # 1. every parameter is consumed
+    for p in gc.params:
+        used = any(_mentions_param(v, p) for v in normal.values())
+        if p == "backend" and is_py and members:
+            used = used or len({v for v in normal.values()}) > 1
+        ctx.check(used, rule, gc.key(f"param::{p}"), f"`{p}` is consumed", f"{short}::get_code: parameter `{p}` is never consumed (generator, add_schemes, formatter)", gc.where())
+    # 2. construction of the generator
+    want = {"numpy": "PythonCodeGenerator", "jax": "JaxCodeGenerator"}
+    for name, v in normal.items():
+        ctors = {c for c in _av.find_all(v, "call") if c[1].split(".")[-1] in GENERATORS}
+        suffix = f"::{name}" if name else ""
+        if not ctors:
+            ctx.undecided(rule, gc.key("ctor" + suffix), f"{short}::get_code: no construction of a code generator is found in its value", gc.where())
+            continue
+        for opt in ("remove_unused",) + (("shape",) if is_py else ()):
+            bad = [c for c in ctors if not _mentions_param(dict(c[3]).get(opt, ("c", None)), opt)]
+            if name in (None, members[0] if members else None):
+                ctx.check(not bad, rule, gc.key(f"ctor::{opt}"), f"{opt} reaches the generator", f"{short}::get_code does not pass {opt} to the code generator" + (f" (it constructs {_av.show(bad[0])[:120]})" if bad else ""), gc.where())
+            elif bad:
+                ctx.fail(rule, gc.key(f"ctor::{opt}"), f"{short}::get_code does not pass {opt} to the code generator for backend {name} (it constructs {_av.show(bad[0])[:120]})", gc.where())
+        if name is not None:
+            got = sorted({c[1].split(".")[-1] for c in ctors})
+            ctx.check(name in want and got == [want[name]], rule, gc.key(f"backend::{name}"), f"backend {name} -> {want.get(name)}", f"gotran2py.get_code: backend `{name}` constructs `{', '.join(got)}` (expected {want.get(name)})", gc.where())
+    if "<other>" in values:
+        from .c03 import _branches
+
+        ov = values["<other>"]
+        rejected = all(leaf[0] == "raise" for _c, leaf in _branches(ov))
+        if not rejected and _av.has_unk(ov):
+            ctx.undecided(rule, gc.key("backend::<other>"), "what get_code does for an unknown backend is not understood", gc.where())
+        else:
+            ctx.check(rejected, rule, gc.key("backend::<other>"), "an unknown backend is rejected", "gotran2py.get_code: an unknown backend does not raise", gc.where())
+    # 3. add_schemes receives the options
+    v0 = next(iter(normal.values()))
+    add_f = sm.func("cli/utils.py", "add_schemes")
+    adds = [c for c in _av.find_all(v0, "call") if c[1].split(".")[-1] == "add_schemes"]
+    if not adds:
+        ctx.undecided(rule, gc.key("add_schemes"), f"{short}::get_code: no call of add_schemes is found in its value", gc.where())
+    else:
+        c = adds[0]
+        passed = dict(zip(add_f.params, c[2]))
+        passed.update(dict(c[3]))
+        for q in add_f.params:
+            if q == "codegen":
+                continue
+            cands = ({q} | MAP.get(q, set())) & set(gc.params)
+            if not cands:
+                continue
+            key = gc.key(f"utils.add_schemes::{q}")
+            if q not in passed:
+                ctx.fail(rule, key, f"get_code accepts `{'/'.join(sorted(cands))}` but does not pass `{q}` to utils.py::add_schemes: the option is silently ignored", gc.where())
+                continue
+            ctx.check(any(_mentions_param(passed[q], x) for x in cands), rule, key, f"{q} <- {_av.show(passed[q])[:60]}", f"get_code passes {q}={_av.show(passed[q])[:60]} to add_schemes, which does not derive from its own option `{'/'.join(sorted(cands))}`", gc.where())
+    # 4. the formatter selected by `format` is applied
+    fmt = [x for x in _av.find_all(v0, "vcall") if x[1][0] == "call" and x[1][1].split(".")[-1] == "get_formatter"]
+    if not fmt:
+        looked = [c for c in A.call_log if c[2][0] == "call" and c[2][1].split(".")[-1] == "get_formatter"]
+        if looked or not _mentions_param(v0, "format"):
+            ctx.fail(rule, gc.key("formatter"), f"{short}::get_code does not apply the formatter selected by `format` to the generated code", gc.where())
+        else:
+            ctx.undecided(rule, gc.key("formatter"), f"{short}::get_code: how the requested format is applied is not recognised", gc.where())
+    else:
+        x = fmt[0]
+        farg = dict(x[1][3]).get("format", x[1][2][0] if x[1][2] else ("c", None))
+        ctx.check(_mentions_param(farg, "format") and len(x[2]) == 1, rule, gc.key("formatter"), "the requested formatter is looked up and applied to the result", f"{short}::get_code does not apply the formatter selected by `format` to the generated code (it applies {_av.show(x[1])[:80]})", gc.where())
+
+
 def run(ctx: Ctx):
     sm = ctx.sm
     ctx.assume("exit codes as observed from a shell are not decided; typer's own argument validation (exists=True) is trusted")
@@ -137,45 +242,7 @@ def run(ctx: Ctx):
         used |= fl.condition_params(main)
         for p in main.params:
             ctx.check(p in used, "R18.a", main.key(f"param::{p}"), f"`{p}` is used", f"{short}::main: parameter `{p}` is never used", main.where())
-        # get_code: every parameter is consumed
-        gdeps = fl.param_deps(gc)
-        gused: set[str] = set()
-        for u in fl.keyword_uses(gc):
-            gused |= u.params
-        gused |= fl.condition_params(gc)
-        for p in gc.params:
-            ctx.check(p in gused, "R18.a", gc.key(f"param::{p}"), f"`{p}` is consumed", f"{short}::get_code: parameter `{p}` is never consumed (generator, add_schemes, formatter)", gc.where())
-        ctor = [c for c in walk_no_nested(gc.node) if isinstance(c, ast.Call) and (dotted(c.func) or "") in ("CodeGenerator", "CCodeGenerator", "PythonCodeGenerator", "JaxCodeGenerator")]
-        ctx.require(ctor, f"{short}::get_code: generator construction not found")
-        ru = call_kw(ctor[0], "remove_unused")
-        ctx.check(ru is not None and "remove_unused" in fl.expr_params(ru, gdeps), "R18.a", gc.key("ctor::remove_unused"), "remove_unused reaches the generator", f"{short}::get_code does not pass remove_unused to the code generator", gc.where(ctor[0]))
-        adds = [c for c in find_calls(gc.node, "add_schemes")]
-        ctx.require(adds, f"{short}::get_code: add_schemes call not found")
-        add_f = sm.func("cli/utils.py", "add_schemes")
-        check_call_forwarding(ctx, "R18.a", gc, adds[0], add_f, skip={"codegen"})
-        # formatter honoured
-        gf = [c for c in find_calls(gc.node, "get_formatter")]
-        okf = bool(gf) and "format" in fl.expr_params(call_kw(gf[0], "format") or (gf[0].args[0] if gf[0].args else ast.Constant(None)), gdeps)
-        applied = [c for c in walk_no_nested(gc.node) if isinstance(c, ast.Call) and isinstance(c.func, ast.Name) and c.func.id in gdeps and "format" in gdeps.get(c.func.id, set())]
-        ctx.check(okf and bool(applied), "R18.a", gc.key("formatter"), "the requested formatter is looked up and applied to the result", f"{short}::get_code does not apply the formatter selected by `format` to the generated code", gc.where())
-        if short.endswith("gotran2py.py"):
-            from sa import te
-
-            members = common.enum_values(ctx, "cli/gotran2py.py", "Backend")
-            pe = te.PEval(sm.module("cli/gotran2py.py"), distinct={f"Backend.{m}" for m in members})
-            want = {"numpy": "PythonCodeGenerator", "jax": "JaxCodeGenerator"}
-            callee = ctor[0].func.id if isinstance(ctor[0].func, ast.Name) else None
-            for m in members:
-                env = pe.env_before(gc.node, {"backend": te.atom(f"Backend.{m}")}, ctor[0])
-                got = None
-                if isinstance(env, dict) and callee is not None:
-                    got = env.get(callee, te.atom(callee))
-                    got = got[1] if got[0] == "atom" else got
-                ctx.check(m in want and got == want[m], "R18.a", gc.key(f"backend::{m}"), f"backend {m} -> {want.get(m)}", f"gotran2py.get_code: backend `{m}` constructs `{got}` (expected {want.get(m)})" if env is not None else f"gotran2py.get_code: the selection of the generator class for backend `{m}` is not understood", gc.where())
-            env = pe.env_before(gc.node, {"backend": ("const", "<something else>")}, ctor[0])
-            ctx.check(isinstance(env, tuple) and env[0] == "raise", "R18.a", gc.key("backend::<other>"), "an unknown backend is rejected", "gotran2py.get_code: an unknown backend does not raise", gc.where())
-            sh = call_kw(ctor[0], "shape")
-            ctx.check(sh is not None and "shape" in fl.expr_params(sh, gdeps), "R18.a", gc.key("ctor::shape"), "shape reaches the generator", "gotran2py.get_code does not pass shape to the generator", gc.where())
+        check_get_code(ctx, "R18.a", short)
 
     # the per-scheme keyword arguments: delta and stiff_states are honoured for every scheme that takes them
     common.check_scheme_kwargs(ctx, "R18.a", "delta")
